@@ -490,6 +490,19 @@ def run(ctx):
     ctx.rule('C09.4-assembler-constructors', 'FragmentAssembler::new and ::with_timeout build the same assembler except for the timeout', floor=1)
     _sib(ctx, P, 'C09.4-assembler-constructors', ASM if 'ASM' in globals() else 'edp_client::fragmentation::FragmentAssembler', ['edp_client::fragmentation::FragmentAssembler::new', 'edp_client::fragmentation::FragmentAssembler::with_timeout'], {'fragment_timeout'})
 
+    # the sweep really sweeps: every call walks the table
+    ctx.rule('C09.4-sweep-unconditional', 'every call of cleanup_expired reaches the walk over the pending table (retain / the loop that removes): no early return skips it - '
+             'a sweep that is skipped because "the last one was recent" keeps a sequence that expired in between', floor=1)
+    CE = ctx.body('edp_client::fragmentation::FragmentAssembler::cleanup_expired')
+    if CE is not None:
+        walks = set(bb for bb, t in CE.calls() if (callee_of(t)[0] or '').rsplit('::', 1)[-1] in ('retain', 'extract_if', 'drain', 'remove', 'iter', 'iter_mut', 'keys', 'values') and t['args'] and 'pending' in root_fields(CE, t['args'][0]))
+        rets = set(CE.return_blocks())
+        if walks and CE.all_paths_pass(0, walks, rets):
+            ctx.ok('C09.4-sweep-unconditional', 'cleanup_expired', 'every path from entry to return walks `pending`', ctx.where(CE))
+        else:
+            ctx.bad('C09.4-sweep-unconditional', 'cleanup_expired', 'cleanup_expired can return without looking at the pending table: an expired sequence survives the call and its data is held on',
+                    ctx.where(CE), key='DOM:edp_client::fragmentation::FragmentAssembler::cleanup_expired:sweep-skipped')
+
 
 def _rv_places(rv):
     k = rv['k']
